@@ -113,6 +113,135 @@ fn revoke_reactor_exact_pairs_two_entities()
     std::mem::forget(world); std::mem::forget(cache);
 }
 
+// ---- revoke_reactor: every kind of trigger is routed to its kernel (all eleven ReactorType variants) -------------------
+/// one record per kernel call: (kernel, sub-kind, type is the expected one, entity index / table address, reactor index)
+/// kernels: 0 EntityReactors::remove, 1 broadcast, 2 resource, 3 any-entity-event, 4 component, 5 despawn
+pub static mut ROUTED_N: usize = 0x5EED_0E00;
+pub static mut ROUTED: [(u8, u8, bool, usize, u32); 4] = [(9, 9, false, 0x5EED, 0); 4];
+pub fn routed() -> usize { unsafe { ROUTED_N - 0x5EED_0E00 } }
+fn route(rec: (u8, u8, bool, usize, u32)) { unsafe { let n = routed(); if n < 4 { ROUTED[n] = rec; } ROUTED_N += 1; } }
+pub struct Tk;      // THE type every token entry of the routing harness names
+fn rkind(rtype: EntityReactionType) -> (u8, bool)
+{
+    match rtype
+    {
+        EntityReactionType::Insertion(t) => (0u8, t == TypeId::of::<Tk>()),
+        EntityReactionType::Mutation(t)  => (1u8, t == TypeId::of::<Tk>()),
+        EntityReactionType::Removal(t)   => (2u8, t == TypeId::of::<Tk>()),
+        EntityReactionType::Event(t)     => (3u8, t == TypeId::of::<Tk>()),
+    }
+}
+pub fn rec_entity_remove(this: &mut EntityReactors, rtype: EntityReactionType, id: SystemCommand)
+{ let (k, ok) = rkind(rtype); route((0, k, ok, this as *mut EntityReactors as usize, id.index())); }
+pub fn rec_broadcast(_c: &mut ReactCache, t: TypeId, id: SystemCommand) { route((1, 0, t == TypeId::of::<Tk>(), 0, id.index())); }
+pub fn rec_resource(_c: &mut ReactCache, t: TypeId, id: SystemCommand) { route((2, 0, t == TypeId::of::<Tk>(), 0, id.index())); }
+pub fn rec_any_event(_c: &mut ReactCache, t: TypeId, id: SystemCommand) { route((3, 0, t == TypeId::of::<Tk>(), 0, id.index())); }
+pub fn rec_component(_c: &mut ReactCache, rtype: EntityReactionType, id: SystemCommand) { let (k, ok) = rkind(rtype); route((4, k, ok, 0, id.index())); }
+pub fn rec_despawn(_c: &mut ReactCache, e: Entity, id: SystemCommand) { route((5, 0, true, e.index() as usize, id.index())); }
+
+/// the i-th of the eleven trigger kinds, aimed at `target` where the kind has a target; and the kernel call it must cause
+fn kind_of(i: u8, target: Entity, table: usize) -> (ReactorType, (u8, u8, bool, usize, u32))
+{
+    let t = TypeId::of::<Tk>();
+    match i
+    {
+        0 => (ReactorType::EntityInsertion(target, t), (0, 0, true, table, 41)),
+        1 => (ReactorType::EntityMutation(target, t), (0, 1, true, table, 41)),
+        2 => (ReactorType::EntityRemoval(target, t), (0, 2, true, table, 41)),
+        3 => (ReactorType::EntityEvent(target, t), (0, 3, true, table, 41)),
+        4 => (ReactorType::AnyEntityEvent(t), (3, 0, true, 0, 41)),
+        5 => (ReactorType::ComponentInsertion(t), (4, 0, true, 0, 41)),
+        6 => (ReactorType::ComponentMutation(t), (4, 1, true, 0, 41)),
+        7 => (ReactorType::ComponentRemoval(t), (4, 2, true, 0, 41)),
+        8 => (ReactorType::ResourceMutation(t), (2, 0, true, 0, 41)),
+        9 => (ReactorType::Broadcast(t), (1, 0, true, 0, 41)),
+        _ => (ReactorType::Despawn(target), (5, 0, true, target.index() as usize, 41)),
+    }
+}
+
+/// C06 (complete + local, the walk over the token): a two-entry token whose entries are EACH symbolically any of the
+/// eleven trigger kinds (121 combinations, duplicates included), aimed at two different live entities: `revoke_reactor`
+/// makes exactly one kernel call per entry (any order), each to the kernel of that kind with that entry's type key /
+/// entity and the token's reactor id - nothing is skipped, nothing else is addressed.  All six kernels are recorders
+/// (their own behaviour: rc.revoke_*, entreactors.remove_*).
+#[kani::proof]
+#[kani::stub(core::any::TypeId::of, crate::vh::stub_typeid_of)]
+#[kani::stub(<core::any::TypeId as crate::vh::PEq>::eq, crate::vh::stub_typeid_eq)]
+#[kani::stub(EntityReactors::remove, rec_entity_remove)]
+#[kani::stub(ReactCache::revoke_broadcast_reactor, rec_broadcast)]
+#[kani::stub(ReactCache::revoke_resource_mutation_reactor, rec_resource)]
+#[kani::stub(ReactCache::revoke_any_entity_event_reactor, rec_any_event)]
+#[kani::stub(ReactCache::revoke_component_reactor, rec_component)]
+#[kani::stub(ReactCache::revoke_despawn_reactor, rec_despawn)]
+#[kani::unwind(4)]
+fn revoke_reactor_routes_all_kinds()
+{
+    let mut world = World::new();
+    let mut cache = ReactCache::default();
+    let me = SystemCommand(ent(41));
+    let e1 = world.spawn(EntityReactors::default()).id();
+    let e2 = world.spawn(EntityReactors::default()).id();
+    let p1 = world.get::<EntityReactors>(e1).unwrap() as *const EntityReactors as usize;
+    let p2 = world.get::<EntityReactors>(e2).unwrap() as *const EntityReactors as usize;
+    let k1 = any_below(11); let k2 = any_below(11);
+    let (t1, want1) = kind_of(k1, e1, p1);
+    let (t2, want2) = kind_of(k2, e2, p2);
+    let token = RevokeToken{ reactors: { let a: Arc<[ReactorType; 2]> = Arc::new([t1, t2]); a }, id: me };
+    let wp = &mut world as *mut World;
+    revoke_reactor(In(token), ResMut::m_new(&mut cache), qry(wp));
+    assert!(routed() == 2, "C06: exactly one kernel call per trigger the token names (none skipped, none extra)");
+    let (r0, r1) = unsafe { (ROUTED[0], ROUTED[1]) };
+    assert!((r0 == want1 && r1 == want2) || (r0 == want2 && r1 == want1),
+        "C06: each trigger reaches the kernel of ITS kind with ITS type key / entity and the token's reactor id (either order)");
+    kani::cover!(k1 == 0 && k2 == 10, "entity insertion + despawn"); kani::cover!(k1 == 9 && k2 == 9, "the same broadcast twice");
+    kani::cover!(k1 == 7 && k2 == 3, "component removal + entity event");
+    std::mem::forget(world); std::mem::forget(cache);
+}
+
+/// The same with THREE entries (1331 combinations) aimed at three live entities; the calls are compared as multisets.
+#[kani::proof]
+#[kani::stub(core::any::TypeId::of, crate::vh::stub_typeid_of)]
+#[kani::stub(<core::any::TypeId as crate::vh::PEq>::eq, crate::vh::stub_typeid_eq)]
+#[kani::stub(EntityReactors::remove, rec_entity_remove)]
+#[kani::stub(ReactCache::revoke_broadcast_reactor, rec_broadcast)]
+#[kani::stub(ReactCache::revoke_resource_mutation_reactor, rec_resource)]
+#[kani::stub(ReactCache::revoke_any_entity_event_reactor, rec_any_event)]
+#[kani::stub(ReactCache::revoke_component_reactor, rec_component)]
+#[kani::stub(ReactCache::revoke_despawn_reactor, rec_despawn)]
+#[kani::unwind(5)]
+fn revoke_reactor_routes_all_kinds_3()
+{
+    let mut world = World::new();
+    let mut cache = ReactCache::default();
+    let me = SystemCommand(ent(41));
+    let e1 = world.spawn(EntityReactors::default()).id();
+    let e2 = world.spawn(EntityReactors::default()).id();
+    let e3 = world.spawn(EntityReactors::default()).id();
+    let p1 = world.get::<EntityReactors>(e1).unwrap() as *const EntityReactors as usize;
+    let p2 = world.get::<EntityReactors>(e2).unwrap() as *const EntityReactors as usize;
+    let p3 = world.get::<EntityReactors>(e3).unwrap() as *const EntityReactors as usize;
+    let k1 = any_below(11); let k2 = any_below(11); let k3 = any_below(11);
+    let (t1, w1) = kind_of(k1, e1, p1);
+    let (t2, w2) = kind_of(k2, e2, p2);
+    let (t3, w3) = kind_of(k3, e3, p3);
+    let token = RevokeToken{ reactors: { let a: Arc<[ReactorType; 3]> = Arc::new([t1, t2, t3]); a }, id: me };
+    let wp = &mut world as *mut World;
+    revoke_reactor(In(token), ResMut::m_new(&mut cache), qry(wp));
+    assert!(routed() == 3, "C06: exactly one kernel call per trigger the token names (none skipped, none extra)");
+    let r = unsafe { [ROUTED[0], ROUTED[1], ROUTED[2]] };
+    let w = [w1, w2, w3];
+    let mut i = 0;
+    while i < 3
+    {
+        let have = (r[0] == w[i]) as u8 + (r[1] == w[i]) as u8 + (r[2] == w[i]) as u8;
+        let want = (w[0] == w[i]) as u8 + (w[1] == w[i]) as u8 + (w[2] == w[i]) as u8;
+        assert!(have == want, "C06: each trigger reaches the kernel of ITS kind with ITS type key / entity and the token's reactor id, as often as the token names it");
+        i += 1;
+    }
+    kani::cover!(k1 == 0 && k2 == 10 && k3 == 4, "three different kinds"); kani::cover!(k1 == 9 && k2 == 9 && k3 == 9, "the same broadcast three times");
+    std::mem::forget(world); std::mem::forget(cache);
+}
+
 /// C07: the handle kind follows the mode, and the handle names exactly the given system command.
 fn reactor_mode_prepare(m: u8)
 {
@@ -571,3 +700,134 @@ fn once_registers_in_a_refcounted_mode()
     kani::cover!(true, "end of harness reached");
     std::mem::forget(world); std::mem::forget(token);
 }
+
+// ---- entry points joined with a RECORDED dispatch (C14): which dispatch a public trigger call ends in, how often, with what ----
+/// one record per dispatch call: (dispatch kind, the type parameter is the expected one, entity index, entity generation, payload)
+/// kinds: 0 entity event, 1 insertion, 2 mutation
+pub static mut DISPATCH_N: usize = 0x5EED_0F00;
+pub static mut DISPATCHED: [(u8, bool, u32, u32, u8); 4] = [(9, false, 0x5EED, 0, 0); 4];
+pub fn dispatched() -> usize { unsafe { DISPATCH_N - 0x5EED_0F00 } }
+fn dispatch_rec(rec: (u8, bool, u32, u32, u8)) { unsafe { let n = dispatched(); if n < 4 { DISPATCHED[n] = rec; } DISPATCH_N += 1; } }
+pub fn rec_sched_entity_event<E: Send + Sync + 'static>(In((target, event)): In<(Entity, E)>, _c: Commands, _cache: Res<ReactCache>, _q: Query<&EntityReactors>)
+{
+    let is_ea = TypeId::of::<E>() == TypeId::of::<Ea>();
+    let payload = if is_ea { unsafe { (*(&event as *const E as *const Ea)).0 } } else { 0 };
+    dispatch_rec((0, is_ea, target.index(), target.generation(), payload));
+    std::mem::forget(event);
+}
+pub fn rec_sched_insertion<C: ReactComponent>(In(entity): In<Entity>, _cache: ResMut<ReactCache>, _c: Commands, _q: Query<&EntityReactors>)
+{ dispatch_rec((1, TypeId::of::<C>() == TypeId::of::<Ka>(), entity.index(), entity.generation(), 0)); }
+pub fn rec_sched_mutation<C: ReactComponent>(In(entity): In<Entity>, _cache: ResMut<ReactCache>, _c: Commands, _q: Query<&EntityReactors>)
+{ dispatch_rec((2, TypeId::of::<C>() == TypeId::of::<Ka>(), entity.index(), entity.generation(), 0)); }
+
+fn entry_world() -> World
+{
+    let mut world = World::new();
+    world.m_drop_table::<bevy::model::cell::LeakAll>();
+    world.insert_resource(ReactCache::default());
+    world.insert_resource(crate::ecs::auto_despawn::verif_h::mk_despawner());
+    world.m_set_cmd_mode(CmdMode::Immediate);      // the deferred syscall closure is applied at once (its type cannot be named)
+    world
+}
+
+/// C14: `ReactCommands::entity_event(target, event)` ends in exactly ONE entity-event dispatch of that event type, carrying
+/// exactly that target (index and generation - also for a stale id: dropping it is the dispatch's business, C18) and that
+/// payload; no other dispatch.  The dispatch itself is a recorder (decided by rc.entity_event_*).
+#[kani::proof]
+#[kani::stub(core::any::TypeId::of, crate::vh::stub_typeid_of)]
+#[kani::stub(<core::any::TypeId as crate::vh::PEq>::eq, crate::vh::stub_typeid_eq)]
+#[kani::stub(ReactCache::schedule_entity_event_reaction, rec_sched_entity_event)]
+#[kani::stub(ReactCache::schedule_insertion_reaction, rec_sched_insertion)]
+#[kani::stub(ReactCache::schedule_mutation_reaction, rec_sched_mutation)]
+#[kani::unwind(4)]
+fn entry_entity_event_one_dispatch()
+{
+    let mut world = entry_world();
+    let live = world.spawn_empty().id();
+    let stale: bool = kani::any();
+    let target = if stale { Entity::m_new(live.index(), live.generation() + 1) } else { live };
+    let payload: u8 = kani::any();
+    let wp = &mut world as *mut World;
+    { let mut rc = ReactCommands{ commands: cmds(wp) }; rc.entity_event(target, Ea(payload)); }
+    assert!(dispatched() == 1, "C14: one entity_event call = exactly one dispatch");
+    let r = unsafe { DISPATCHED[0] };
+    assert!(r == (0, true, target.index(), target.generation(), payload), "C14/C03: the entity-event dispatch of THAT event type, with that target and that payload");
+    assert!(world.m_queue.is_empty(), "C14: nothing else is left queued");
+    kani::cover!(stale, "stale id"); kani::cover!(!stale, "live entity");
+    std::mem::forget(world);
+}
+
+/// C14: `ReactCommands::insert(entity, component)` on a live entity: the component is on the entity (wrapped, recording
+/// its owner) BEFORE the insertion dispatch runs, and exactly one INSERTION dispatch for that component type and that
+/// entity follows - no mutation dispatch; on an id that does not exist: nothing is inserted and nothing is dispatched.
+#[kani::proof]
+#[kani::stub(core::any::TypeId::of, crate::vh::stub_typeid_of)]
+#[kani::stub(<core::any::TypeId as crate::vh::PEq>::eq, crate::vh::stub_typeid_eq)]
+#[kani::stub(ReactCache::schedule_entity_event_reaction, rec_sched_entity_event)]
+#[kani::stub(ReactCache::schedule_insertion_reaction, rec_sched_insertion)]
+#[kani::stub(ReactCache::schedule_mutation_reaction, rec_sched_mutation)]
+#[kani::unwind(4)]
+fn entry_insert_one_dispatch()
+{
+    let mut world = entry_world();
+    let live = world.spawn_empty().id();
+    let stale: bool = kani::any();
+    let target = if stale { Entity::m_new(live.index(), live.generation() + 1) } else { live };
+    let v: u8 = kani::any();
+    let wp = &mut world as *mut World;
+    { let mut rc = ReactCommands{ commands: cmds(wp) }; rc.insert(target, Ka(v)); }
+    if stale
+    {
+        assert!(dispatched() == 0 && !world.m_has::<React<Ka>>(live), "C14/C18: inserting on an entity that does not exist inserts nothing and dispatches nothing");
+    }
+    else
+    {
+        assert!(dispatched() == 1, "C14: one insert call = exactly one dispatch");
+        let r = unsafe { DISPATCHED[0] };
+        assert!(r == (1, true, live.index(), live.generation(), 0), "C14: the INSERTION dispatch of that component type for that entity (not the mutation dispatch)");
+        let c = world.get::<React<Ka>>(live);
+        assert!(c.map(|c| c.entity == live && c.component.0 == v).unwrap_or(false), "C14: the component is on the entity, recording its owner");
+    }
+    assert!(world.m_queue.is_empty());
+    kani::cover!(stale, "stale id"); kani::cover!(!stale, "live entity");
+    std::mem::forget(world);
+}
+
+/// C14: the reactive accessors of `React<C>` end in the MUTATION dispatch of that component type for the component's own
+/// entity: `get_mut` once per call, `set_if_neq` once iff the value differs (all old/new pairs), reads never.
+#[kani::proof]
+#[kani::stub(core::any::TypeId::of, crate::vh::stub_typeid_of)]
+#[kani::stub(<core::any::TypeId as crate::vh::PEq>::eq, crate::vh::stub_typeid_eq)]
+#[kani::stub(ReactCache::schedule_entity_event_reaction, rec_sched_entity_event)]
+#[kani::stub(ReactCache::schedule_insertion_reaction, rec_sched_insertion)]
+#[kani::stub(ReactCache::schedule_mutation_reaction, rec_sched_mutation)]
+#[kani::unwind(4)]
+fn entry_mutation_accessors_one_dispatch()
+{
+    let mut world = entry_world();
+    let owner = world.spawn_empty().id();
+    let old: u8 = kani::any();
+    let new: u8 = kani::any();
+    let mut r = React{ entity: owner, component: Kc(old) };
+    let wp = &mut world as *mut World;
+    let mut c = cmds(wp);
+    let _ = r.get(); let _ = r.get_noreact();
+    assert!(dispatched() == 0, "C14: reads never dispatch");
+    let res = r.set_if_neq(&mut c, Kc(new));
+    let n1 = if new == old { 0 } else { 1 };
+    assert!(dispatched() == n1 && res.is_some() == (new != old), "C14: set_if_neq dispatches once iff the value differs");
+    r.get_mut(&mut c).0 = 7;
+    assert!(dispatched() == n1 + 1, "C14: get_mut dispatches exactly once per call");
+    let mut i = 0;
+    while i < n1 + 1
+    {
+        let d = unsafe { DISPATCHED[i] };
+        assert!(d.0 == 2 && d.2 == owner.index() && d.3 == owner.generation(), "C14: the MUTATION dispatch, for the component's own entity");
+        i += 1;
+    }
+    kani::cover!(new == old, "equal"); kani::cover!(new != old, "different");
+    std::mem::forget(world);
+}
+#[derive(PartialEq)]
+pub struct Kc(pub u8);
+impl ReactComponent for Kc {}
